@@ -138,6 +138,10 @@ def deep(x):
 OPS.append(("d = +a", "d = +a", lambda h: h.__setitem__("d", deep(h["a"]))))
 OPS.append(("d = +c", "d = +c", lambda h: h.__setitem__("d", deep(h["c"]))))
 OPS.append(("d = a + [9]", "d = a + [9]", lambda h: h.__setitem__("d", list(h["a"]) + [9])))
+# one operand empty: the sum is still a new array (the shallow-copy idiom `_a + []`)
+OPS.append(("d = a + []", "d = a + []", lambda h: h.__setitem__("d", list(h["a"]))))
+OPS.append(("d = [] + a", "d = [] + a", lambda h: h.__setitem__("d", list(h["a"]))))
+OPS.append(("d = c + []", "d = c + []", lambda h: h.__setitem__("d", list(h["c"]))))
 def minus(h):
     h["d"] = [x for x in h["a"] if not (isinstance(x, (int, float)) and x == 1)]
 OPS.append(("d = a - [1]", "d = a - [1]", minus))
